@@ -36,22 +36,16 @@ rc2, o2 = sh(demo_cmd + " 2>&1 | tail -8")
 sh("git stash pop")
 meta["demo_without_change"] = {"passed": "test result: ok" in o2 and "FAILED" not in o2, "tail": o2.strip().splitlines()[-3:]}
 meta["confirmed"] = bool(suite_ok and meta["demo_with_change"]["failed"] and meta["demo_without_change"]["passed"])
-# 4. run the checks against /repo with the patch applied
+# 4. run the property's checks against the scratch worktree (the change is applied there); /repo is never touched
 checks = {}
-rc, o = sh(f"git -C /repo apply {out}/patch.diff", cwd="/verif")
-if rc != 0:
-    checks["apply_error"] = o
-else:
-    try:
-        for tier in ("quick", "thorough"):
-            t0 = time.time()
-            r = subprocess.run(["./check", prop, "--tier", tier], cwd="/verif", stdout=subprocess.PIPE, stderr=subprocess.STDOUT, text=True, timeout=7200)
-            lines = [l for l in r.stdout.splitlines() if l.startswith(("VIOLATION", "obligation refuted", "UNDECIDED", "KNOWN", prop))]
-            checks[tier] = {"exit": r.returncode, "wall_s": round(time.time() - t0, 1), "lines": lines[:12]}
-            if r.returncode == 1:
-                break
-    finally:
-        subprocess.run("git -C /repo checkout -- .", shell=True)
+for tier in ("quick", "thorough"):
+    t0 = time.time()
+    r = subprocess.run(["./check", prop, "--tier", tier], cwd="/verif", env=dict(os.environ, VERIF_REPO=wt),
+                       stdout=subprocess.PIPE, stderr=subprocess.STDOUT, text=True, timeout=7200)
+    lines = [l for l in r.stdout.splitlines() if l.startswith(("VIOLATION", "obligation refuted", "UNDECIDED", "KNOWN", prop))]
+    checks[tier] = {"exit": r.returncode, "wall_s": round(time.time() - t0, 1), "lines": lines[:12]}
+    if r.returncode == 1 or os.environ.get("SEED_QUICK_ONLY"):
+        break
 meta["checks_on_patched_repo"] = checks
 meta["detected"] = any(isinstance(v, dict) and v.get("exit") == 1 for v in checks.values())
 json.dump(meta, open(f"{out}/meta.json", "w"), indent=1)
